@@ -20,7 +20,7 @@ pub fn spec_for(prop: &str) -> Option<Spec> {
         "C09" => Spec { gen: crate::dev_gen::generate, quick_runs: 60_000, thorough_runs: 5_000_000 },
         "C13" => Spec { gen: crate::dev_gen::generate, quick_runs: 60_000, thorough_runs: 3_000_000 },
         "C20" => Spec { gen: crate::dev_gen::generate, quick_runs: 60_000, thorough_runs: 4_000_000 },
-        "C02" => Spec { gen: crate::comb::generate, quick_runs: 120_000, thorough_runs: 4_000_000 },
+        "C02" => Spec { gen: gen_c02, quick_runs: 120_000, thorough_runs: 4_000_000 },
         "C03" => Spec { gen: gen_c03, quick_runs: 120_000, thorough_runs: 4_000_000 },
         "C15" => Spec { gen: crate::settable::generate, quick_runs: 120_000, thorough_runs: 20_000_000 },
         "C17" => Spec { gen: crate::refs::generate, quick_runs: 20_000, thorough_runs: 4_000_000 },
@@ -64,6 +64,7 @@ fn execute_world(plan: &Plan, ctx: &mut Ctx) {
         "settable" => crate::settable::execute(plan, ctx),
         "refs" => crate::refs::execute(plan, ctx),
         "api" => crate::api::execute(plan, ctx),
+        "word" => crate::words::execute(plan, ctx),
         other => ctx.violate("HARNESS", "unknown_world", other, format!("unknown world {:?}", other)),
     }
 }
@@ -76,6 +77,16 @@ pub fn simplify(plan: &Plan) -> Vec<Plan> {
         "settable" => crate::settable::simplify(plan),
         _ => Vec::new(),
     }
+}
+
+/// C02: combinator trees over f32 / Quantity / bool leaves, and (every sixteenth run) one arithmetic
+/// combinator over a payload whose operators do not commute.
+fn gen_c02(prop: &str, tier: crate::core::Tier, rng: &mut crate::rng::Rng, seed: u64, run: u64) -> Plan {
+    let e = crate::comb::enum_end();
+    if run >= e && run % 16 == 15 {
+        return crate::words::generate(prop, tier, rng, seed, run, (run - e) / 16);
+    }
+    crate::comb::generate(prop, tier, rng, seed, run)
 }
 
 /// C03 rides on three worlds: combinator DAGs, device graphs and the operator layer.
